@@ -31,7 +31,9 @@ IterOps  == {"iter_begin", "iter_next", "iter_clone", "iter_end"}
 
 IsForget(a) == a.op = "range_forget" \/ (a.op \in {"consume", "next", "item_consume"} /\ a.sink.k = "forget")
 (* the property a plain behavioural mismatch of this action counts against *)
-PropOf(a) == IF a.op \in ElemOps THEN <<"C01">> ELSE IF a.op \in RangeOps THEN <<"C02">>
+RECURSIVE Log2Ceil(_)
+Log2Ceil(k) == IF k <= 1 THEN 0 ELSE 1 + Log2Ceil((k + 1) \div 2)
+PropOf(a) == IF a.op = "place" THEN <<"C12">> ELSE IF a.op = "push_many" THEN <<"C10", "C01">> ELSE IF a.op \in ElemOps THEN <<"C01">> ELSE IF a.op \in RangeOps THEN <<"C02">>
              ELSE IF a.op \in WrongOps THEN <<"C04">> ELSE IF a.op = "raw_roundtrip" THEN <<"C17">>
              ELSE IF a.op = "swap" THEN <<"C13">> ELSE IF a.op = "spare_write" THEN <<"C12">>
              ELSE IF a.op \in CapOps THEN <<"C10">> ELSE IF a.op \in CloneOps THEN <<"C08">>
@@ -283,6 +285,7 @@ Judge(stb, ev) ==
       \cup (IF ~hintOk THEN {V1(<<"C14">>, "size_hint_exact")} ELSE {})
       \cup (IF ~typeOk THEN {V1(<<"C13", "C04">> \o P \o (IF a.op = "raw_roundtrip" THEN <<"C17">> ELSE <<>>), "reports_true")} ELSE {})
       \cup (IF ~ceOk THEN {V1(P, "empty_twin_clones")} ELSE {})
+      \cup (IF a.op = "push_many" /\ Cardinality(CapEvents(ev.mem)) > 4 * Log2Ceil(a.n) + 4 THEN {V1(<<"C10">>, "amortised")} ELSE {})
       diverged == ~resOk \/ ~stOk \/ ~wf
       (* next model state *)
       gone == IdSet(AllElems(stb)) \cup ToSet(ev.born)
